@@ -1027,7 +1027,41 @@ func rC06Definers(w *World, r *Report) {
 		})
 		_, isAlloc := ptr.(*ssa.Alloc)
 		ru.Check(okRet && isAlloc, wkey, w.Pos(wf.Pos()), "returns the pointer it registered", "the wrapper returns a pointer other than the one handed to the definer: the program would read a variable the parser never writes")
+		// the wrapper hands on everything it was given: name, default, bounds, modifiers
+		dropped := ""
+		for _, p := range wf.Params[1:] {
+			fwd := false
+			for _, a := range calls[0].Common().Args {
+				if a == ssa.Value(p) {
+					fwd = true
+				}
+				// a parameter whose address is taken lives in an alloc: passed as its load
+				if u, ok := a.(*ssa.UnOp); ok && u.Op == token.MUL {
+					if al, ok := u.X.(*ssa.Alloc); ok && allocHoldsParam(wf, al, p) {
+						fwd = true
+					}
+				}
+				if al, ok := a.(*ssa.Alloc); ok && allocHoldsParam(wf, al, p) {
+					fwd = true
+				}
+			}
+			if !fwd {
+				dropped = p.Name()
+			}
+		}
+		ru.Check(dropped == "", wkey+"/forwards", w.Pos(wf.Pos()), "every parameter is handed to the *Var definer", "the wrapper does not hand its parameter `"+dropped+"` to the definer: what was declared (aliases, description, required, env, default) is silently dropped")
 	}
+}
+
+// allocHoldsParam: the alloc is the spill slot of parameter p (its only stores store p, or nothing for a local).
+func allocHoldsParam(fn *ssa.Function, al *ssa.Alloc, p *ssa.Parameter) bool {
+	holds := false
+	eachInstr(fn, func(in ssa.Instruction) {
+		if st, ok := in.(*ssa.Store); ok && st.Addr == ssa.Value(al) && st.Val == ssa.Value(p) {
+			holds = true
+		}
+	})
+	return holds
 }
 
 func isPointerType(t types.Type) bool { _, ok := t.Underlying().(*types.Pointer); return ok }
